@@ -1,6 +1,8 @@
 import PV.Model.Sexp
 import PV.Model.Diff
-/- Driver operations for the differentiator model (C10). -/
+import PV.Generated.Diff
+/- Driver operations for the differentiator model (C10).  `funcmapT` / `difftable` run the
+interpretation of the table regenerated from the source (`PV.Generated.c10DiffTable`). -/
 namespace PV.Driver
 open PV
 
@@ -36,6 +38,22 @@ def handleDiff : Sexp → Option Sexp
     match Smooth.ofName? cfg, Expr.ofSexp? f, Expr.ofSexpL? ps with
     | some cfg, some f, some ps => some (diffRToSexp (funcMap cfg f ps))
     | _, _, _ => some (Sexp.mk "bad-op" [Sexp.str "funcmap"])
+  | .list [.atom "funcmapT", .atom cfg, f, .list ps] =>
+    match Smooth.ofName? cfg, Expr.ofSexp? f, Expr.ofSexpL? ps with
+    | some cfg, some f, some ps =>
+      let T := Generated.c10DiffTable
+      some (diffRToSexp (c10FuncMapT T.fnModule T.fnElse cfg f ps T.fns))
+    | _, _, _ => some (Sexp.mk "bad-op" [Sexp.str "funcmapT"])
+  | .list [.atom "difftable", .atom cfg, v, e] =>
+    match Smooth.ofName? cfg, Expr.ofSexp? v, Expr.ofSexp? e with
+    | some cfg, some v, some e => some (diffRToSexp (c10DiffT Generated.c10DiffTable cfg v e))
+    | _, _, _ => some (Sexp.mk "bad-op" [Sexp.str "difftable"])
+  | .list [.atom "diffrule", .atom which, f, g, df, dg] =>
+    match Expr.ofSexp? f, Expr.ofSexp? g, Expr.ofSexp? df, Expr.ofSexp? dg with
+    | some f, some g, some df, some dg =>
+      let T := Generated.c10DiffTable
+      some (diffRToSexp (c10RuleEval (if which == "pow" then T.pow else T.quot) f g df dg))
+    | _, _, _, _ => some (Sexp.mk "bad-op" [Sexp.str "diffrule"])
   | _ => none
 
 end PV.Driver
